@@ -140,7 +140,8 @@ void op_sign(const Case& c, TaskCtx& t, Outcome& o) {
     }
     needed = honest.size();
   }
-  size_t cap = resolve_cap(capspec, mx, needed, p);
+  bool sizemax = capspec == "sizemax"; // the caller declares an absurdly large capacity for a buffer of the advertised size
+  size_t cap = sizemax ? mx : resolve_cap(capspec, mx, needed, p);
   bool edge = c.s("place") == "edge" || cap < mx;
   uint8_t fill = (uint8_t)c.i("outfill", 0xC7);
   EdgeBuf eb;
@@ -161,8 +162,28 @@ void op_sign(const Case& c, TaskCtx& t, Outcome& o) {
     mbuf.readonly(true);
     mptr = mbuf.p;
   }
-  size_t len = cap;
-  int rc = libcall(t, [&] { return s_sign(surf, k, mptr, msg.size(), out, &len); });
+  // the message at an odd alignment, or (empty message) as a NULL pointer with length 0
+  bytes shifted;
+  if (c.has("malign") && !msg.empty() && !mbuf.base) {
+    size_t sh = 1 + (size_t)(c.u("malign") % 15);
+    shifted.assign(sh + msg.size() + 16, 0xEE);
+    memcpy(shifted.data() + sh, msg.data(), msg.size());
+    mptr = shifted.data() + sh;
+  }
+  if (c.i("mnull", 0) && msg.empty())
+    mptr = nullptr;
+  size_t len = sizemax ? (size_t)-1 : cap;
+  int rc = libcall(t, [&] {
+    if (mptr)
+      return s_sign(surf, k, mptr, msg.size(), out, &len);
+    // s_sign substitutes a valid pointer for NULL; call the surface directly to really pass NULL
+    if (surf == 1) {
+      bytes st = param_sk_struct(k);
+      return param_api(k.param).sign(st.data(), nullptr, 0, out, &len);
+    }
+    bytes st = generic_sk_struct(k);
+    return picnic_sign(st.data(), nullptr, 0, out, &len);
+  });
   if (mbuf.base)
     mbuf.readonly(false);
   bytes sig;
@@ -636,6 +657,8 @@ void op_verify(const Case& c, TaskCtx& t, Outcome& o) {
     sp = sbuf.p;
     mp = mbuf.p;
   }
+  if (c.i("mnull", 0) && d.msg.empty() && !edge)
+    mp = nullptr; // the empty message as (NULL, 0)
   bytes pkst;
   if (surf == 1) {
     pkst.assign(d.pk.begin() + 1, d.pk.end());
